@@ -45,9 +45,9 @@ func Main() {
 	r.Cases("corpus", len(scenarios()), opts, corpusCase)
 	r.Cases("sweep", 256, opts, sweepCase)
 	r.Cases("recursion", r.N(16, 400), opts, recursionCase)
-	r.Cases("uniform", r.N(5000, 400000), opts, randomGroup("uniform"))
-	r.Cases("weighted", r.N(7000, 600000), opts, randomGroup("weighted"))
-	r.Cases("grammar", r.N(8000, 700000), opts, randomGroup("grammar"))
+	r.Cases("uniform", r.N(5000, 1500000), opts, randomGroup("uniform"))
+	r.Cases("weighted", r.N(7000, 1200000), opts, randomGroup("weighted"))
+	r.Cases("grammar", r.N(8000, 2300000), opts, randomGroup("grammar"))
 	if !r.IsChild() && os.Getenv("VERIF_ONLY_CASE") == "" {
 		share := map[string]interface{}{}
 		for _, g := range []string{"uniform", "weighted", "grammar"} {
